@@ -99,6 +99,7 @@ func genbankText(feats []gbFeature, ref string) []string {
 
 func C14(c *core.Ctx) {
 	c.Explanation("C14: for eight feature layouts expressible in both formats (forward gene, overlapping genes, complement, join with segment lengths not divisible by three, join with lengths divisible by three, complement(join), a partial gene with codon_start=2 / phase 1, extra non-CDS features) RegionsFromGenbank and RegionsFromGFF are interpreted and must return the same regions (name, strand, start, stop, ordered position list, translation) and the same intergenic list, both equal to an independent reading of the location expression (join = concatenation, complement = reversal, codon_start/phase trims the 5' end once; later GFF rows' phases describe codons that straddle the join and remove nothing). For three layouts the same comparison is made end to end from file text: ReadGenBank and ReadGFF are interpreted against the scanner model on equivalent GenBank and GFF3 texts. Not decided: location syntaxes outside these shapes, '<'/'>' partial markers, multi-line locations.")
+	checkReferenceRecordName(c, "R6")
 	var bad, badSpec []string
 	n := 0
 	for _, ac := range annoCases(c) {
@@ -248,6 +249,24 @@ func c14Text(c *core.Ctx) {
 		}
 	}
 	c.Ob("R3/text/parsed-files-give-same-regions", len(bad) == 0, rg.Pos(), "%s", first(bad, 3))
+	// the reference taken from ORIGIN keeps every IUPAC letter, so coordinates agree with the GFF's ##FASTA record
+	{
+		amb := "ACGTRYKMSWBDHVNNACGTACGTRYACGT"
+		ev := newEval(c)
+		installBytesAndRegexp(ev, genbankText(nil, amb))
+		gv, err := ev.CallFunc(rg, eval.Opaque{Why: "genbank file"})
+		if err != nil {
+			c.Und("R3/text/origin-keeps-every-iupac-letter", rg.Pos(), "cannot evaluate ReadGenBank: %v", err)
+		} else {
+			origin := ""
+			if gt, ok := gv.(eval.Tuple); ok && len(gt) == 2 {
+				if st, ok := gt[0].(*eval.StructVal); ok {
+					origin, _ = bytesStr(st.F["ORIGIN"])
+				}
+			}
+			c.Ob("R3/text/origin-keeps-every-iupac-letter", strings.ToUpper(origin) == amb, funcPos(c, "pkg/genbank", "parseGenbankORIGIN"), "ORIGIN %q parsed as %q (%d of %d letters): every later coordinate is shifted against the GFF form of the same annotation", strings.ToLower(amb), origin, len(origin), len(amb))
+		}
+	}
 }
 
 // c14Translations: GetPositions / IsReverse on the location shapes, directly.
